@@ -215,7 +215,7 @@ class ReturnedValue(ComputedValue):
         return self.type_spec
 
     def store_into(self, output: BaseType) -> Expr:
-        from pyteal.ast.subroutine import SubroutineDeclaration
+        from pyteal.ast.subroutine import SubroutineDeclaration, SubroutineEval
 
         if output.type_spec() != self.produced_type_spec():
             raise TealInputError(
@@ -223,14 +223,20 @@ class ReturnedValue(ComputedValue):
             )
 
         # HANG NOTE! This get_declaration check applies only for pre frame pointer case
-        # the post frame pointer case should not apply
-        # need to somehow expose the context of evaluation
+        # the post frame pointer case should not apply: while a subroutine body is evaluated
+        # for the frame pointer convention the callee's scratch flavored declaration is not
+        # needed, and evaluating it here would leave it cached with scratch slots older than
+        # those of the routine that contains this call once that routine is evaluated for
+        # the scratch convention, so the same program would then compile to different TEAL.
 
         declaration: SubroutineDeclaration | None = None
-        try:
-            declaration = self.computation.subroutine.get_declaration_by_option(False)
-        except Exception:
-            pass
+        if SubroutineEval._current_proto is None:
+            try:
+                declaration = self.computation.subroutine.get_declaration_by_option(
+                    False
+                )
+            except Exception:
+                pass
 
         if declaration is not None:
             if declaration.deferred_expr is None:
